@@ -1,100 +1,65 @@
 /-
   XotModel.Lemmas.BytesBait — UTF-8 bytes WITHOUT an XML declaration are decoded as UTF-8, whatever
-  `encoding=` / `charset=` text they contain (the defect repaired in /repo 72a40b0), and what is left
-  of it: `xml_declaration` looks at the ASCII characters only, so the hypothesis is about them
-  (`asciiProj`, `hasDeclLookalike`).
+  `encoding=` / `charset=` text they contain (the defects repaired in /repo 72a40b0 and 41ece46).
+  "Without declaration" as the reader sees it: `hasDeclLookalike t = false` — after the byte order
+  mark the characters up to the first `>` are not all ASCII, or do not begin `<?xml`.
 -/
 import XotModel.Lemmas.BytesDecode
 
 namespace XotModel.Bytes
 
-/-- What `xml_declaration` sees of a UTF-8 text (no 1024-byte limit): its ASCII characters other
-    than NUL, up to and including the first `>`. -/
-def asciiProj : Str → Str
-  | [] => []
-  | c :: cs =>
-    if c.toNat == 0 || decide (c.toNat ≥ 0x80) then asciiProj cs
-    else if c == '>' then ['>'] else c :: asciiProj cs
-
-/-- The ASCII characters of the text up to the first `>` begin `<?xml`: the reader takes the text for
-    one with a declaration.  False for every text that begins (after a byte order mark) with an
-    ASCII character other than `<`, with `<` and an ASCII character other than `?`, … ; TRUE for
-    `<?éxml encoding="latin1"?>` (finding C02:decode-pi-target-lookalike-differs-from-the-text). -/
-def hasDeclLookalike (t : Str) : Bool := ['<', '?', 'x', 'm', 'l'].isPrefixOf (asciiProj t)
-
-/-- `Encoding::decode` removes one leading byte order mark. -/
+/-- `Encoding::decode` (and `xml_declaration`) remove one leading byte order mark. -/
 def stripBom : Str → Str
   | [] => []
   | c :: r => if c == '\uFEFF' then r else c :: r
 
-theorem collectAscii_silent_append (sil x : Bytes) (h : ∀ b ∈ sil, b = 0 ∨ 0x80 ≤ b) :
-    collectAscii (sil ++ x) = collectAscii x := by
-  induction sil with
-  | nil => rfl
-  | cons b r ih =>
-    rw [List.cons_append, collectAscii_silent _ _ (h b List.mem_cons_self)]
-    exact ih (fun y hy => h y (List.mem_cons_of_mem _ hy))
+/-- What the `for` loop of `xml_declaration` makes of a UTF-8 text: NUL skipped, a non-ASCII
+    character ends it with `none` (/repo 41ece46), the others collected up to the first `>`. -/
+def asciiProj : Str → Option Str
+  | [] => some []
+  | c :: cs =>
+    if c.toNat == 0 then asciiProj cs
+    else if c.toNat ≥ 0x80 then none
+    else if c == '>' then some ['>']
+    else match asciiProj cs with
+      | some s => some (c :: s)
+      | none => none
+
+/-- The reader takes the text for one with a declaration: after the byte order mark, the characters
+    up to the first `>` are ASCII (NUL apart) and begin `<?xml`.  False for every text that begins
+    with an ASCII character other than `<`, with `<` and an ASCII character other than `?`, with a
+    processing instruction whose target is not literally `xml…` — also `<?éxml encoding="latin1"?>`,
+    which was a lookalike before /repo 41ece46. -/
+def hasDeclLookalike (t : Str) : Bool :=
+  match asciiProj (stripBom t) with
+  | some a => ['<', '?', 'x', 'm', 'l'].isPrefixOf a
+  | none => false
 
 theorem collectAscii_encodeUtf8 (t : Str) : collectAscii (encodeUtf8 t) = asciiProj t := by
   induction t with
   | nil => rfl
   | cons c cs ih =>
     rw [encodeUtf8, asciiProj]
-    rcases utf8Bytes_head c with ⟨h1, h2⟩ | ⟨h1, b, r, h2, h3, _, h4⟩
-    · rw [h2, List.singleton_append, collectAscii]
-      have e80 : decide (c.toNat ≥ 0x80) = false := by simp; omega
-      rw [e80]
-      simp only [Bool.or_false]
-      by_cases h0 : c.toNat = 0
-      · simp only [h0, beq_self_eq_true, if_true, ih]
-      · have : (c.toNat == 0) = false := by simp [h0]
-        rw [this]
-        simp only [Bool.false_eq_true, if_false]
-        by_cases hg : c = '>'
-        · subst hg; rfl
-        · have : (c.toNat == 0x3E) = false := by
-            simp only [beq_eq_false_iff_ne, ne_eq]
-            intro e; exact hg (Char.toNat_inj.mp e)
-          rw [this]
-          have : (c == '>') = false := by simp [hg]
-          rw [this]
-          simp only [Bool.false_eq_true, if_false, Char.ofNat_toNat, ih]
-    · have e80 : decide (c.toNat ≥ 0x80) = true := by simp; omega
-      rw [e80, Bool.or_true, if_pos rfl, h2,
-        collectAscii_silent_append (b :: r) _ (by
-          intro x hx
-          rcases List.mem_cons.mp hx with rfl | hx
-          · right; omega
-          · right; exact (h4 x hx).1), ih]
-
-theorem collectAscii_take_prefix (bs : Bytes) : ∀ n, collectAscii (bs.take n) <+: collectAscii bs := by
-  induction bs with
-  | nil => intro n; simp [collectAscii]
-  | cons b r ih =>
-    intro n
-    cases n with
-    | zero => simp [collectAscii]
-    | succ n =>
-      rw [List.take_succ_cons, collectAscii, collectAscii]
-      split
-      · exact ih n
-      · split
-        · exact List.prefix_refl _
-        · exact List.prefix_cons_inj _ |>.mpr (ih n)
-
-theorem xmlDeclaration_utf8_none (t : Str) (h : hasDeclLookalike t = false) :
-    xmlDeclaration (encodeUtf8 t) = none := by
-  apply xmlDeclaration_none
-  cases hp : ['<', '?', 'x', 'm', 'l'].isPrefixOf (collectAscii ((encodeUtf8 t).take 1024)) with
-  | false => rfl
-  | true =>
-    have h1 := List.isPrefixOf_iff_prefix.mp hp
-    have h2 := h1.trans (collectAscii_take_prefix (encodeUtf8 t) 1024)
-    rw [collectAscii_encodeUtf8] at h2
-    have := List.isPrefixOf_iff_prefix.mpr h2
-    rw [hasDeclLookalike] at h
-    rw [h] at this
-    cases this
+    rcases utf8Bytes_head c with ⟨h1, h2⟩ | ⟨h1, b, r, h2, h3, _, _⟩
+    · rw [h2, List.singleton_append, collectAscii, ih]
+      have e80 : ¬ (c.toNat ≥ 0x80) := by omega
+      by_cases hg : c = '>'
+      · subst hg; rfl
+      · have : (c.toNat == 0x3E) = false := by
+          simp only [beq_eq_false_iff_ne, ne_eq]
+          intro e; exact hg (Char.toNat_inj.mp e)
+        have h' : (c == '>') = false := by simp [hg]
+        simp only [e80, this, h', Char.ofNat_toNat]
+        by_cases hz : (c.toNat == 0) = true
+        · simp only [hz, if_true]
+        · simp only [hz, if_false]
+          cases asciiProj cs <;> rfl
+    · have e0 : (c.toNat == 0) = false := by simp only [beq_eq_false_iff_ne, ne_eq]; omega
+      have e80 : c.toNat ≥ 0x80 := h1
+      have b0 : (b == 0) = false := by simp only [beq_eq_false_iff_ne, ne_eq]; omega
+      have b80 : b ≥ 0x80 := by omega
+      rw [h2, List.cons_append, collectAscii]
+      simp only [e0, b0, e80, b80, Bool.false_eq_true, if_false, if_true]
 
 /-! ### The detector on the head of UTF-8 bytes without a declaration -/
 
@@ -221,6 +186,53 @@ theorem bomSniff_utf8 (c : Char) (cs : Str) (hc : c ≠ '\uFEFF') : bomSniff (en
       · simp only [List.cons_append, List.nil_append]
         apply bomSniff_none3 <;> omega
 
+theorem isPrefixOf_ucs4 (x : Bytes) (h : ∀ b ∈ x, b < 0xF8) :
+    ([0, 0, 0xFE, 0xFF].isPrefixOf x || [0, 0, 0xFF, 0xFE].isPrefixOf x) = false := by
+  rcases x with _ | ⟨a, _ | ⟨b, _ | ⟨c, rest⟩⟩⟩
+  · rfl
+  · simp [List.isPrefixOf]
+  · simp [List.isPrefixOf]
+  · have hc := h c (by simp)
+    have c2 : ¬ 0xFF = c := by omega
+    have c3 : ¬ 0xFE = c := by omega
+    simp [List.isPrefixOf, c2, c3]
+
+theorem bomSniff_none_tests (x : Bytes) (h : bomSniff x = none) :
+    [0xEF, 0xBB, 0xBF].isPrefixOf x = false ∧ [0xFF, 0xFE].isPrefixOf x = false ∧ [0xFE, 0xFF].isPrefixOf x = false := by
+  unfold bomSniff at h
+  by_cases a1 : [0xEF, 0xBB, 0xBF].isPrefixOf x = true
+  · rw [if_pos a1] at h; cases h
+  · rw [if_neg a1] at h
+    by_cases a2 : [0xFF, 0xFE].isPrefixOf x = true
+    · rw [if_pos a2] at h; cases h
+    · rw [if_neg a2] at h
+      by_cases a3 : [0xFE, 0xFF].isPrefixOf x = true
+      · rw [if_pos a3] at h; cases h
+      · exact ⟨Bool.eq_false_iff.mpr a1, Bool.eq_false_iff.mpr a2, Bool.eq_false_iff.mpr a3⟩
+
+/-- The reader's first statement on UTF-8 bytes: it removes exactly the UTF-8 byte order mark. -/
+theorem stripDeclBom_encodeUtf8 (t : Str) : stripDeclBom (encodeUtf8 t) = encodeUtf8 (stripBom t) := by
+  cases t with
+  | nil => rfl
+  | cons c cs =>
+    by_cases hc : c = '\uFEFF'
+    · subst hc
+      rw [encodeUtf8, utf8Bytes_bom]
+      simp [stripDeclBom, List.isPrefixOf, stripBom]
+    · have hne : (c == '\uFEFF') = false := by simp [hc]
+      obtain ⟨h1, h2, h3⟩ := bomSniff_none_tests _ (bomSniff_utf8 c cs hc)
+      have h4 := isPrefixOf_ucs4 _ (encodeUtf8_lt (c :: cs))
+      simp only [stripDeclBom, h1, h2, h3, h4, Bool.or_self, Bool.false_eq_true, if_false, stripBom, hne]
+
+theorem xmlDeclaration_utf8_none (t : Str) (h : hasDeclLookalike t = false) :
+    xmlDeclaration (encodeUtf8 t) = none := by
+  apply xmlDeclaration_none
+  intro a ha
+  rw [stripDeclBom_encodeUtf8, collectAscii_encodeUtf8] at ha
+  unfold hasDeclLookalike at h
+  rw [ha] at h
+  exact h
+
 /-- **UTF-8 bytes without a declaration** (with or without byte order mark) decode to the text, the
     byte order mark removed — whatever `encoding=` / `charset=` text they contain. -/
 theorem decodeBytes_utf8_undeclared (t : Str) (h : hasDeclLookalike t = false) :
@@ -245,21 +257,25 @@ theorem decodeBytes_utf8_undeclared (t : Str) (h : hasDeclLookalike t = false) :
     document type declaration) is not taken for one with a declaration. -/
 theorem noLookalike_of_lt (c : Char) (r : Str) (h0 : 0 < c.toNat) (h1 : c.toNat < 0x80) (hq : c ≠ '?') :
     hasDeclLookalike ('<' :: c :: r) = false := by
-  have e1 : (c.toNat == 0 || decide (c.toNat ≥ 0x80)) = false := by
-    simp only [Bool.or_eq_false_iff, beq_eq_false_iff_ne, decide_eq_false_iff_not]; omega
-  have hq' : (c == '?') = false := by simp [hq]
+  have e0 : (c.toNat == 0) = false := by simp only [beq_eq_false_iff_ne, ne_eq]; omega
+  have e1 : ¬ (c.toNat ≥ 0x80) := by omega
   unfold hasDeclLookalike
-  rw [asciiProj]
-  simp only [show ('<'.toNat == 0 || decide ('<'.toNat ≥ 0x80)) = false by decide,
+  rw [show stripBom ('<' :: c :: r) = '<' :: c :: r from rfl, asciiProj]
+  simp only [show ('<'.toNat == 0) = false by decide, show ¬ ('<'.toNat ≥ 0x80) by decide,
     show ('<' == '>') = false by decide, Bool.false_eq_true, if_false]
-  rw [asciiProj, e1]
-  simp only [Bool.false_eq_true, if_false]
-  split
-  · rename_i hg
-    simp only [beq_iff_eq] at hg
-    subst hg
-    decide
-  · simp [List.isPrefixOf, hq]
-    intro e; exact absurd e.symm hq
+  rw [asciiProj, e0]
+  simp only [Bool.false_eq_true, if_false, e1]
+  by_cases hg : c = '>'
+  · subst hg; rfl
+  · have hg' : (c == '>') = false := by simp [hg]
+    rw [hg']
+    simp only [Bool.false_eq_true, if_false]
+    cases asciiProj r with
+    | none => rfl
+    | some a =>
+      simp only [List.isPrefixOf]
+      have : ('?' == c) = false := by
+        simp only [beq_eq_false_iff_ne, ne_eq]; exact fun e => hq e.symm
+      simp [this]
 
 end XotModel.Bytes
